@@ -48,6 +48,10 @@ var infoCmdAttrList = &cobra.Command{
 		if err != nil {
 			return err
 		}
+		// an inconsistent dictionary is refused here like everywhere else
+		if _, err := builder.Build(); err != nil {
+			return err
+		}
 
 		return writeYamlOutput(cmd, builder.UnwrapAttributes())
 	},
@@ -96,6 +100,10 @@ var infoCmdChordList = &cobra.Command{
 	RunE: func(cmd *cobra.Command, _ []string) error {
 		builder, err := newChordBuilder(cmd)
 		if err != nil {
+			return err
+		}
+		// an inconsistent dictionary is refused here like everywhere else
+		if _, err := builder.Build(); err != nil {
 			return err
 		}
 
